@@ -107,3 +107,89 @@ Example C06_body_examples :
   resp_of_json (JArr [JBool false; JNull; JArr [JNum (JInt false 3)]]) =
     Some {| r_avail := false; r_patch := None; r_rb := Some [3] |}.
 Proof. vm_compute. repeat split. Qed.
+
+(* ---------- the text of a response body (JsonText.v) ---------- *)
+From UV Require Import Base Codec Model Json JsonProofs JsonText JsonTextProofs JsonTextSound JsonTextExist.
+
+(* the strict reader (serde_json's parse at a typed position) reads EVERY sentence of the JSON grammar - any white
+   space, any escape form including surrogate pairs, any digit string - and returns the tree it denotes *)
+Theorem C06_text_strict_reader_reads_every_sentence :
+  forall t b, G t b -> forall w rest fuel, WS w -> ok_rest rest -> (List.length b < fuel)%nat ->
+    parse_value fuel (w ++ b ++ rest) = Some (t, rest).
+Proof. exact strict_reader_reads_every_sentence. Qed.
+Print Assumptions C06_text_strict_reader_reads_every_sentence.
+
+(* ... and nothing else: a body is accepted by the strict reader exactly when it is white space, one sentence of the
+   grammar, white space - anything that is not JSON is rejected *)
+Theorem C06_text_strict_reader_language :
+  forall l t, parse_json l = Some t <-> exists w b w', WS w /\ G t b /\ WS w' /\ l = w ++ b ++ w'.
+Proof. exact parse_json_iff. Qed.
+Print Assumptions C06_text_strict_reader_language.
+
+(* the scanner used for the value of an unknown key accepts every sentence of the same grammar with UNCHECKED string
+   contents (lone surrogates, ill-formed UTF-8), at any nesting depth *)
+Theorem C06_text_scanner_skips_every_sentence :
+  forall b, L b -> forall w rest fuel, WS w -> ok_rest rest -> (List.length b < fuel)%nat ->
+    ignore_value fuel (w ++ b ++ rest) = Some rest.
+Proof. exact scanner_skips_every_sentence. Qed.
+Print Assumptions C06_text_scanner_skips_every_sentence.
+
+(* a whole response body: members in any order, white space anywhere, known members read by their type (the patch
+   object by its own schema), unknown members holding any lenient sentence: what the library makes of the BYTES is
+   what Json.resp_of_json makes of the tree they denote *)
+Theorem C06_text_body_is_its_tree :
+  forall t b w w', GS resp_schema t b -> WS w -> WS w' -> resp_of_body (w ++ b ++ w') = resp_of_json t.
+Proof. exact resp_of_body_complete. Qed.
+Print Assumptions C06_text_body_is_its_tree.
+
+(* ... and ONLY those: the library reads a patch-check answer out of a body exactly when the body is white space, a
+   sentence of the response schema, white space, and the tree it denotes is one resp_of_json accepts.  Every other
+   body - not JSON, JSON with a defect where the struct reads, bytes after the value, a byte-order mark - is a failed
+   check (with C06_unreadable_body_is_failed_check: an error status and an untouched state) *)
+Theorem C06_text_accepted_bodies_are_exactly_the_schema_sentences :
+  forall l r, resp_of_body l = Some r <->
+    exists w b w' t, WS w /\ GS resp_schema t b /\ WS w' /\ l = w ++ b ++ w' /\ resp_of_json t = Some r.
+Proof. exact resp_of_body_iff. Qed.
+Print Assumptions C06_text_accepted_bodies_are_exactly_the_schema_sentences.
+
+(* ... so a well-formed answer is read back exactly, however it is spelled *)
+Theorem C06_text_wellformed_answer_read_exactly :
+  forall r b w w', resp_in_range r -> GS resp_schema (json_of_resp r) b -> WS w -> WS w' ->
+    resp_of_body (w ++ b ++ w') = Some r.
+Proof.
+  intros r b w w' Hr g Hw Hw'. rewrite (resp_of_body_complete _ _ _ _ g Hw Hw'). apply resp_roundtrip. exact Hr.
+Qed.
+Print Assumptions C06_text_wellformed_answer_read_exactly.
+
+(* (the grammar is inhabited: every in-range answer whose strings are text HAS a body the library reads as that answer) *)
+Theorem C06_text_every_answer_has_a_body :
+  forall r, resp_in_range r -> resp_utf8 r -> exists b, resp_of_body b = Some r.
+Proof. exact every_answer_has_a_body. Qed.
+Print Assumptions C06_text_every_answer_has_a_body.
+
+(* ... and an unknown member, whatever lenient JSON it holds, changes nothing *)
+Theorem C06_text_unknown_member_changes_nothing :
+  forall l1 k l2 b w w', known k = false -> GS resp_schema (JObj (l1 ++ (k, JNull) :: l2)) b -> WS w -> WS w' ->
+    resp_of_body (w ++ b ++ w') = resp_of_json (JObj (l1 ++ l2)).
+Proof.
+  intros l1 k l2 b w w' Hk g Hw Hw'. rewrite (resp_of_body_complete _ _ _ _ g Hw Hw'). apply unknown_field_ignored. exact Hk.
+Qed.
+Print Assumptions C06_text_unknown_member_changes_nothing.
+
+(* the places where the two readers differ, and a few non-sentences, evaluated (tests of the definitions, not theorems
+   about all inputs): lone surrogate / ill-formed UTF-8 under an unknown key are fine, under a known key or in a key of
+   the struct they are errors; trailing bytes, a byte-order mark, a trailing comma are errors *)
+Definition bs (s : string) : bytes := map N_of_ascii (list_ascii_of_string s).
+Example C06_text_examples :
+  resp_of_body (bs "{""patch_available"":false,""x"":""\ud800""}") = Some {| r_avail := false; r_patch := None; r_rb := None |} /\
+  resp_of_body (bs "{""patch_available"":false,""x"":[[[{""k"":""" ++ [255] ++ bs """}]]]}") = Some {| r_avail := false; r_patch := None; r_rb := None |} /\
+  resp_of_body (bs "{""patch_available"":false,""\ud800"":1}") = None /\
+  resp_of_body (bs "{""patch_available"":true,""patch"":{""number"":2,""hash"":""\ud800"",""download_url"":""u""}}") = None /\
+  resp_of_body (bs " { ""patch"" : { ""download_url"":""u"", ""hash"" : ""a😀"" , ""number"" : 2 } , ""patch_available"" : true } ")
+    = Some {| r_avail := true; r_patch := Some {| p_num := 2; p_hash := str_of (97 :: utf8_enc 128512); p_url := "u"; p_sig := None |}; r_rb := None |} /\
+  resp_of_body (bs "{""patch_available"":false} x") = None /\
+  resp_of_body ([239; 187; 191] ++ bs "{""patch_available"":false}") = None /\
+  resp_of_body (bs "{""patch_available"":false,}") = None /\
+  resp_of_body (bs "{""patch_available"":false,""rolled_back_patch_numbers"":[1,02]}") = None /\
+  resp_of_body [] = None.
+Proof. vm_compute. repeat split. Qed.
